@@ -7,9 +7,10 @@
 //!     every supported Rust type × bound type (the value's own type, `i64` and `f64` — the two the derive macro
 //!     emits for integer / float literals — and `i128`) × bounds menu × values; all values × all bounds for the
 //!     8-bit types, all values × the bounds menu for the 16-bit types (module `direct`).
-//! (B) a derive schema per annotated site (`#[graphql(validator(...))]` on arguments, `Option<T>`, `Vec<T>`, list
-//!     forms, several validators, input-object fields), executed in `ValidationMode::Strict` and `Fast` with the
-//!     value supplied as a literal and as variables; the resolver logs its invocations (module `exec`).
+//! (B) a root field per annotated site (`#[graphql(validator(...))]` on `#[Object]`, `#[ComplexObject]` and
+//!     `#[Subscription]` arguments, `InputObject` fields, `OneofObject` variants; `Option<T>`, `Vec<T>`, list forms,
+//!     several validators), executed in `ValidationMode::Strict` and `Fast` with the value supplied as a literal and
+//!     as variables; the resolver logs its invocations (module `exec`).
 //!
 //! Oracle: the stated predicate evaluated in exact arithmetic on the real values (module `real`: integer
 //! mantissa·2^e, no float operations), UTF-8 byte / scalar-value counts computed by hand, hand-written matchers
@@ -67,7 +68,8 @@ fn run(cx: &Cx) {
          ALL values × ALL bounds of the type (8-bit, plus every integer and half-integer bound in ±300), ALL values × the bounds menu (16-bit), dense menu (±d around 0 and ±2^k, k ≤ 64) × \
          bounds menu (wider integers), float menu incl. ±0, NaN, ±inf, subnormals, neighbours of every menu integer (f32/f64); bounds menu = {type min, type max of every integer type, −1, 0, 1, 100, 2^24, 2^53, …} \
          with both neighbours. Length/regex validators × {String, Box<str>, Arc<str>, ID} × every string of ≤ 3 (thorough 4) symbols over {a b 0 é 😀 U+0301 LF (c d)} plus long strings × 52 length bounds / 7 regexes; \
-         max_items/min_items × 6 list types × 23 lengths × the same bounds. Execute: one derive schema per site (listed in coverage.execute_values_per_site), values derived from the site's bounds, \
+         max_items/min_items × 6 list types × 23 lengths × the same bounds. Execute: one root field per annotated site (listed in coverage.execute_values_per_site) over five derive schemas — #[Object] arguments, InputObject fields (bare and inside a list), \
+         #[ComplexObject] arguments, #[Subscription] arguments, OneofObject variants; Option<T>, Vec<T>, list forms, several validators per site; values derived from the site's bounds, \
          the type's extremes and the signed/unsigned and float-precision edges (all 256 values for the 8-bit types), each as literal and as variable(s), in both validation modes. \
          Non-trivial = cases where the predicate holds and the implementation agrees (direct: returned Ok; execute: resolver ran once); counted distinct by construction (menus are de-duplicated).",
     );
